@@ -588,7 +588,7 @@ Lemma full_property_false : ~ full_property.
 Proof. intro H. exact (empty_document_refutes (H _ _)). Qed.
 
 (* [benign] excludes exactly the refuting classes: dropping any one of its three
-   conditions admits one of the witnesses above. *)
+   conditions lets one of the witnesses above through. *)
 Lemma benign_conditions_needed :
   (forallb call_acyclic [CallDecode [] 0 (fun _ => false)] = true /\
    forallb call_supported [CallDecode [] 0 (fun _ => false)] = true) /\
